@@ -362,7 +362,8 @@ func runC07(cfg *hx.Config) {
 			ptr := reflect.New(registry[tname])
 			schema.toGo(t, v, ptr.Elem())
 			matched := false
-			modelSeesOmissions := !specHitsDefaultLiteral(tname, trimAll(ds))
+			modelSeesOmissions := true // the model decodes default literals without the reader's spec, as the generated code does
+			_ = specHitsDefaultLiteral
 			if !modelSeesOmissions {
 				rep.Count("model-corner=spec-matches-inside-a-default-literal")
 			}
